@@ -15,7 +15,7 @@ def nontrivial(case, info, qk, row):
 def run(ctx):
     count = 150 if ctx.tier == "quick" else 3000
     cases = answers.load_corpus("C07")
-    cases += answers.gen_cases(ctx, count, (1, 5), (1, 6), [True], consts=0.12)
+    cases += answers.gen_cases(ctx, count, (1, 5), (1, 6), [True], consts=0.12, ties=0.3)
     answers.run_cases(ctx, cases, CONFIGS, nontrivial)
 
 
